@@ -39,7 +39,29 @@ CONSTRAINTS = [
     'forall <chr> v in start: (= v "c")',                 # unknown nonterminal
     'forall <var> v in start: nosuchpredicate(v, v)',      # unknown predicate
     'exists <assgn> a="{<var> l} := {<rhs> r}" in start: (= l r)',
+    # predicates declared in a Python extension file (the documented way of adding predicates): one semantic, one structural
+    'forall <digit> d in start: evendigit(d)',
+    'exists <var> x in start: exists <var> y in start: precedes(x, y)',
 ]
+EXTENSION = '''
+from isla.language import SemanticPredicate, SemPredEvalResult, StructuralPredicate
+from isla.isla_predicates import is_before
+
+
+def is_even(_, number) -> SemPredEvalResult:
+    if not hasattr(number, "is_complete") or not number.is_complete():
+        return SemPredEvalResult(None)
+    return SemPredEvalResult(int(str(number)) % 2 == 0)
+
+
+def predicates():
+    return {StructuralPredicate("precedes", 2, is_before), SemanticPredicate("evendigit", 1, is_even, binds_tree=False)}
+'''
+# independent oracles for the two extension constraints (the reference semantics does not know these predicates)
+EXT_ORACLE = {
+    7: lambda t: all(int(str(n)) % 2 == 0 for _, n in refsem.nodes(t) if n.value == "<digit>"),
+    8: lambda t: sum(1 for _, n in refsem.nodes(t) if n.value == "<var>") >= 2,
+}
 INPUTS = ["a := 1", "a := b ; b := 1", "c := 1", "b := 0", "a := a", "", "\n", "a :=", "x", "a := 1\n", "@json",
           # valid JSON that is no derivation tree (must be treated as a plain, here non-member, string), and a JSON tree that
           # is not a tree of the grammar
@@ -67,7 +89,11 @@ def expected_check(inp_text, constraint_texts):
     except SyntaxError:
         return 1
     for c in constraint_texts:
-        if not refsem.ref_eval(parse_isla(c, G), t, G):
+        ci = CONSTRAINTS.index(c)
+        if ci in EXT_ORACLE:
+            if not EXT_ORACLE[ci](t):
+                return 1
+        elif not refsem.ref_eval(parse_isla(c, G), t, G):
             return 1
     return 0
 
@@ -103,6 +129,10 @@ def _scenario(v) -> bool:
                 files.append(p)
             else:
                 argv += ["--constraint", c]
+        if any(CONSTRAINTS.index(c) in EXT_ORACLE for c in ctexts):
+            p = os.path.join(d, "ext.py")
+            open(p, "w").write(EXTENSION)
+            files.append(p)
         inp = INPUTS[inp_i]
         if inp == "@json":
             inp = json.dumps(vlib.parse_tree(G, "a := 1").to_parse_tree())
